@@ -316,7 +316,7 @@ def run_r5(ctx, rule):
         ok = False
         where = ""
         for i, f in facts.fns.items():
-            if f.kind == "Closure" and norm(i).startswith("flussab_cnf::%s::Parser::next_clause" % mod):
+            if f.crate == "flussab_cnf" and norm(i).startswith("flussab_cnf::%s::Parser::" % mod):
                 c = cfg(f)
                 ntl = [bb for bb, t in f.calls() if norm(util.cname(t)) == TOK + "non_terminating_linebreaks"]
                 cl = [bb for bb, t in f.calls() if norm(util.cname(t)) == TOK + "clause_lits"]
@@ -337,6 +337,27 @@ def run(ctx):
     run_r4(ctx, r4)
     r5 = ctx.rule("C07-R5", "a clause may continue behind a line break and comment lines", floor=7)
     run_r5(ctx, r5)
+    # R6: the byte classes the layout freedoms rest on (LF | CRLF, space | tab) -- the exact behaviour comparison
+    # of C16-R3 for text::newline and text::tabs_or_spaces, and their schedule independence (no reader call
+    # other than the look-ahead: a CRLF split between two reads must still be one line end)
+    from . import c16
+    r6 = ctx.rule("C07-R6", "line ends are exactly LF | CRLF and blanks exactly space | tab, however the bytes arrive (shared with C16-R1/R3)", floor=20)
+    facts = ctx.facts
+    for h, spec in (("newline", c16.spec_newline), ("tabs_or_spaces", c16.spec_tabs)):
+        fid = c16.T + h
+        fn = facts.fn(fid)
+        for o in (0, 1):
+            got, eng = scan.behaviour(facts, scan.root_key(facts, fid), (TOP, ("i", o)))
+            c16.compare(r6, h, "offset=%d" % o, got, spec(o), fn)
+        bad = []
+        for k in cg.reach_above(facts, [scan.root_key(facts, fid)], set(c16.LOOKS)):
+            if norm(facts.inst[k]["def"]) in c16.LOOKS:
+                continue
+            for c in facts.inst[k]["calls"]:
+                d = norm(c.get("to_def") or c.get("def") or "")
+                if (d.startswith(A.DR) or d.startswith(A.LR)) and d not in c16.LOOKS:
+                    bad.append(d)
+        r6.check(not bad, "%s/reader-effects" % h, "%s decides through the look-ahead primitive only (forbidden: %s)" % (h, sorted(set(bad))), fn.loc())
     return (
         "other",
         "typestate (blank-normal form) over all flussab-cnf parser entry points; exact end-of-word class; loop / dispatch shape rules for comments, blank lines, line continuation and missing final newline. Decides these structural necessary conditions, not the equality of the values parsed from two renderings.",
